@@ -134,9 +134,12 @@ class BodyParser(ExprParser):
             j += 1
         pat = parse_pattern(self.t[self.i : j])
         self.i = j
+        typ = None
         if self.peek_s() == ":":
             # type annotation: skip to '=' or ';' at depth 0 (angle brackets tracked)
             depth = 0
+            self.eat()
+            t0 = self.i
             while not self.at_end():
                 t = self.peek()
                 if t.k == "p" and t.s in ("(", "[", "{", "<"):
@@ -146,6 +149,7 @@ class BodyParser(ExprParser):
                 elif depth <= 0 and t.s in ("=", ";"):
                     break
                 self.eat()
+            typ = "".join(t.s for t in self.t[t0 : self.i])
         init = None
         if self.peek_s() == "=":
             self.eat()
@@ -156,7 +160,7 @@ class BodyParser(ExprParser):
             self.eat()
         elif not self.at_end():
             raise Unparsed("`;` expected after let at " + text(self.t[self.i : self.i + 4]))
-        return ("let", pat, init)
+        return ("let", pat, init, typ)
 
     def expr_stmt(self):
         s = self.peek_s()
